@@ -370,6 +370,35 @@ def exclusion_verdicts(prog, hist, group_of, label):
     return out
 
 
+
+def width_verdicts(prog, hist):
+    """one dispatch_apply call onto a concurrent queue narrowed with dispatch_queue_set_width(w) (directly or through its target chain) never has
+    more than w invocations running at once: the caller enters with dispatch_sync (one unit) and _dispatch_apply_redirect may only add as many
+    helpers as the queue has width left. (dispatch_sync itself is allowed to overcommit the width by design, so plain items are not counted.)"""
+    call, ret, start, end, starts, ends = hist.index()
+    ev = hist.ev
+    ncalls = {}
+    for i in hist.of_kind(e3.EV["CALL"]):
+        ncalls[int(ev["op"][i])] = ncalls.get(int(ev["op"][i]), 0) + 1
+    out = []
+    for o in prog.order:
+        if o.kind != "apply" or o.a < 0 or o.a >= 20 or ncalls.get(o.id, 0) != 1:
+            continue
+        ws = [prog.queues[q].get("width", 0) for q in prog.chain_of(o.a) if prog.queues[q]["kind"] == 1 and prog.queues[q].get("width", 0)]
+        if not ws:
+            continue
+        w = min(ws)
+        evs = sorted([(p, 0) for p, i in starts.get(o.id, [])] + [(p, 1) for p, i in ends.get(o.id, [])], key=lambda x: (x[0], -x[1]))
+        depth = 0
+        for p, t in evs:
+            depth += 1 if t == 0 else -1
+            if depth > w:
+                out.append(Verdict("dispatch_apply of op %d onto q%d (width limited to %d): %d invocations were running at once (event %d)" % (o.id, o.a, w, depth, p),
+                                   dict(kind="apply-width-exceeded")))
+                break
+    return out
+
+
 def order_verdicts(prog, hist, queue_filter, label):
     """FIFO per serial queue: ret(A) < call(B) (stamps; includes same-thread program order) => not start(B) < end(A)"""
     call, ret, start, end, starts, ends = hist.index()
